@@ -475,4 +475,40 @@ def run (c : Cfg) (s : State) : List Ev → State
   | [] => s
   | e :: es => run c (step c s e).1 es
 
+/-! ### the by-hash lookups of the header store across roll-backs
+
+`blockHeaderStore` answers `FetchHeader` / `HeightFromHash` from the hash->height index, which
+`WriteHeaders` extends and `RollbackLastBlock` cuts back together with the file: the model's
+by-hash view is `idxOf log`.  `memoOn = true` is a store that additionally remembers every answer
+it gave in a table that roll-backs do not touch ("the height of a block is determined by its
+hash"); it is the shape a look-up cache takes and is here to show which clause it breaks. -/
+
+structure MemoSt where
+  log  : List Nat := [0]
+  memo : List (Nat × Nat) := []
+deriving Repr
+
+inductive SOp where
+  | write (hs : List Nat)
+  | rollback
+  | ask (id : Nat)
+deriving Repr
+
+def MemoSt.resolve (memoOn : Bool) (s : MemoSt) (id : Nat) : Option Nat :=
+  match (if memoOn then s.memo.lookup id else none) with
+  | some h => some h
+  | none => idxOf s.log id
+
+def sstep (memoOn : Bool) (s : MemoSt) : SOp → MemoSt
+  | .write hs => { s with log := s.log ++ hs }
+  | .rollback => { s with log := s.log.dropLast }
+  | .ask id =>
+    match s.resolve memoOn id with
+    | some h => if memoOn then { s with memo := (id, h) :: s.memo } else s
+    | none => s
+
+def srun (memoOn : Bool) (s : MemoSt) : List SOp → MemoSt
+  | [] => s
+  | o :: os => srun memoOn (sstep memoOn s o) os
+
 end Neutrino.BM
